@@ -75,6 +75,11 @@ fn mul_pair(ctx: &mut Ctx, ad: &[u64], bd: &[u64], a: &BigUint, b: &BigUint, sig
                 Out::Ret(Some(v)) => expect_int(ctx, "BigInt checked_mul", &iargs, Out::Ret(v), &w),
                 other => ctx.viol(format!("BigInt checked_mul {}", iargs().join(" ")), "checked_mul did not return Some", iargs(), w.to_hex(), format!("{:?}", other.map_dbg())),
             }
+            let r = call(ctx, || num_traits::CheckedMul::checked_mul(x, y));
+            match r {
+                Out::Ret(Some(v)) => expect_int(ctx, "CheckedMul for BigInt", &iargs, Out::Ret(v), &w),
+                other => ctx.viol(format!("CheckedMul for BigInt {}", iargs().join(" ")), "checked_mul did not return Some", iargs(), w.to_hex(), format!("{:?}", other.map_dbg())),
+            }
         }
     }
 }
